@@ -132,6 +132,35 @@ def rule_b(ctx):
         for w in writes:
             ctx.ob("written-target-synchronised|%s" % b.name, any(b.postdominates(s, w) for s in syncs),
                    "every final time write is followed by a synchronize on every path", [w])
+        # the lag reported by the final synchronize is subject to the tolerance like any other (documented contract of
+        # set_clock_tolerance: "any report of synchronization loss ... that exceeds the specified tolerance will trigger an OutOfSync error")
+        for s in syncs:
+            oos = [e for e in b.aggregates(adt="simulation::ExecutionError", variant="OutOfSync") if b.dominates(s, e)]
+            ctx.ob("final-out-of-sync-reported|%s" % b.name, len(oos) >= 1,
+                   "the result of the final synchronize(target) is inspected: a lag above the tolerance makes step_until fail with OutOfSync", oos or [s])
+            for e in oos:
+                conds = b.conditions(e)
+                v_sync = any(c.kind == "variant" and c.data[1] == {"OutOfSync"} and not c.data[2] and
+                             c.data[0] == frozenset([("call", s.b, K.CLOCK_SYNC)]) for c in conds)
+                v_tol = any(c.kind == "variant" and c.data[1] == {"Some"} and not c.data[2] and
+                            all(origin_proj_names(o)[1][-1:] == [("f", "clock_tolerance")] for o in c.data[0]) for c in conds)
+
+                def is_lag(x, s=s):
+                    return bool(x) and all(origin_proj_names(o)[0] == ("call", s.b, K.CLOCK_SYNC) and origin_proj_names(o)[1][:1] == [("d", "OutOfSync")] for o in x)
+
+                def is_tol(x):
+                    return bool(x) and all(any(n == ("f", "clock_tolerance") for n in origin_proj_names(o)[1]) for o in x)
+
+                gt = any(K.cmp_implies(c, ">", is_lag, is_tol) for c in conds)
+                ctx.ob("final-out-of-sync-iff|%s" % b.name, v_sync and v_tol and gt,
+                       "final jump: Err(OutOfSync(lag)) iff synchronize returned OutOfSync(lag), a tolerance is set and lag > tolerance (strict)", [e])
+                ctx.ob("final-out-of-sync-carries-lag|%s" % b.name, is_lag(b.origins(e.node["r"]["ops"][0], e)),
+                       "final jump: OutOfSync carries the lag reported by the clock", [e])
+            # Ok is still returned on every other outcome (no tolerance: lags ignored)
+            oks = [r for r in K.ret_assigns(b) if K.result_variant_of_ret(r) == "Ok" and b.dominates(s, r)]
+            bad = [c for r in oks for c in b.conditions(r) if b.dominates(s, c.site) and c.kind in ("variant", "cmp", "call", "bool")]
+            ctx.ob("final-lag-ignored-without-tolerance|%s" % b.name, bool(oks) and not bad,
+                   "after the final synchronize, Ok is returned on every outcome other than the OutOfSync-above-tolerance branch", oks + [c.site for c in bad])
 
 
 def rule_c(ctx):
